@@ -2,15 +2,15 @@ CONSTANTS
  Confs <- MCConfs
  FixWaitErr = FALSE
  Reduce = FALSE
- MCShapes = {"img", "idx2"}
+ MCShapes = {"img", "dup", "idx2", "dtag", "art"}
  MCPairs = {"tworeg", "samereg", "reg2dir", "dir2reg"}
- MCOpts <- MCOptsDefault
- MCFeats <- MCFeatsDefault
+ MCOpts <- MCOptsCore
+ MCFeats <- MCFeatsMount
  MCInit = "corners"
  MCTag0 = {"none", "stale"}
  MCByDigest = {FALSE}
  MCTgtByDigest = {FALSE}
- MaxFaults = 1
+ MaxFaults = 2
  AllowCancel = TRUE
  AllowCrash = TRUE
  Cap = 0
